@@ -7,7 +7,7 @@
 
    Histories are lists of [cop]; [cwf_hist fl 0 h] = the well-formed histories of one registry
    flavour [fl] (Spec/RegChain.v: registries are addressed after their creation, bases come
-   earlier in creation order, no rebuild()).  [call] (what registered factories return) and the
+   earlier in creation order; rebuild() included).  [call] (what registered factories return) and the
    initial specification graph are arbitrary. *)
 From Coq Require Import List Arith Bool.
 Import ListNotations.
@@ -39,8 +39,8 @@ Theorem C05_cache_transparent_state :
 Proof. exact cache_transparent_state. Qed.
 Print Assumptions C05_cache_transparent_state.
 
-(* Static world (Model/RegSys.v alone, any world W, both flavours, every RegSys operation except
-   rebuild): the history form again. *)
+(* Static world (Model/RegSys.v alone, any world W, both flavours, every RegSys operation incl.
+   rebuild()): the history form again. *)
 Theorem C05_cache_transparent_static :
   forall (W : world) (call : value -> list nat -> option nat) (fl : flavour) (pre : list rop) (q : rop),
     wf_hist fl 0 (pre ++ [q]) = true -> is_lookup q = true ->
@@ -89,7 +89,7 @@ Definition ex_ifs : list bool := [true; true; true; true].
 Definition ex_call (v : value) (os : list nat) : option nat := Some (vid v + length os).
 Definition v7 : value := mkV 7 7.
 
-(* rebuild() is outside the well-formed histories of the theorems above.  It used to break
+(* rebuild() is covered by the theorems above since Spec/RegChain.wf_op admits it.  It used to break
    transparency: it re-runs __init__, which forgot the sub-registries of an invalidating
    registry, so a later registration in the base no longer reached the sub-registry's caches
    (found while proving C05/C06/C07; repaired in /repo by "fix: rebuild() keeps the registries
